@@ -66,8 +66,9 @@ class Engine(EngineBase):
             sp = small_sp(rng)
             while any(same(sp, x["sp"]) for x in jobs):
                 sp = {**small_sp(rng), "fresh": rng.randrange(100)}
-            op = [kind, sp]
-            dest = rng.choice(["free", "free", "empty"])
+            # explicitly, or implicitly through the first document access of a new job
+            op = [kind, sp, rng.choice(["init", "init", "doc"])]
+            dest = rng.choice(["free", "free", "empty"]) if op[2] == "init" else "free"
             new_sp = sp
         elif kind == "sp_set":
             k = rng.choice(KEYS + "d")
@@ -218,6 +219,9 @@ class Engine(EngineBase):
         kind = op[0]
         if kind == "init_fresh":
             job = p1.open_job(op[1])
+            if len(op) > 2 and op[2] == "doc":
+                # the implicit initialisation alone (reading the still absent document writes nothing)
+                return lambda: job.doc()
             return lambda: job.init()
         jb = sc["jobs"][op[1]]
         if sc["handle"] == "by_id":
